@@ -13,6 +13,7 @@ mod sim_b;
 mod sim_c;
 mod sim_client;
 mod sim_d1;
+mod sim_d2;
 mod sim_e;
 mod sim_f;
 mod world;
@@ -38,6 +39,7 @@ fn dispatch_run(prop: &str, opts: &Opts) -> i32 {
         "C04" => kit::run_batch(&sim_c::SimC4, opts).exit_code,
         "C08" => kit::run_batch(&sim_e::SimE, opts).exit_code,
         "C12" => kit::run_batch(&sim_d1::SimD1, opts).exit_code,
+        "C06" => kit::run_batch(&sim_d2::SimD2, opts).exit_code,
         other => {
             eprintln!("HARNESS-ERROR: no simulator registered for property {other}");
             2
@@ -58,6 +60,7 @@ fn dispatch_plan(prop: &str, seed: u64, i: u64) -> i32 {
         "C04" => kit::print_plan(&sim_c::SimC4, seed, i),
         "C08" => kit::print_plan(&sim_e::SimE, seed, i),
         "C12" => kit::print_plan(&sim_d1::SimD1, seed, i),
+        "C06" => kit::print_plan(&sim_d2::SimD2, seed, i),
         _ => return 2,
     }
     0
@@ -77,6 +80,7 @@ fn dispatch_replay(file: &serde_json::Value, verif_dir: &str) -> i32 {
         "C04" => kit::replay(&sim_c::SimC4, file, verif_dir),
         "C08" => kit::replay(&sim_e::SimE, file, verif_dir),
         "C12" => kit::replay(&sim_d1::SimD1, file, verif_dir),
+        "C06" => kit::replay(&sim_d2::SimD2, file, verif_dir),
         other => {
             eprintln!("HARNESS-ERROR: no simulator registered for property {other}");
             2
